@@ -316,3 +316,11 @@ INSTANCES.update({
     "torec5": (seq(["root", "lcstart", "lenter", "lexit", "levent", "lprops", "lccollect", "collectopen", "torec", "pushc", "drop"], MaxOps=6, MaxSpans=1,
                    MaxRoots=1, MaxAtt=2, MaxLs=1, MaxLocal=2, MaxScopes=1, MaxCycles=0, op_sleep_us=100), "terminal", {}),
 })
+
+# a captured set under several parents, in one trace and in two (C17's "N identical subtrees")
+INSTANCES.update({
+    "lc_multi": (seq(["root", "child2", "lcstart", "lenter", "levent", "lccollect", "collectopen", "pushc", "torec"], MaxOps=7, MaxSpans=3,
+                     MaxRoots=2, MaxTraces=2, MaxAtt=1, MaxLs=1, MaxLocal=1, MaxScopes=1, MaxCycles=1), "terminal", {}),
+    "lc_multi_q": (seq(["root", "child2", "lcstart", "lenter", "lccollect", "collectopen", "pushc"], MaxOps=7, MaxSpans=3,
+                       MaxRoots=2, MaxTraces=2, MaxLs=1, MaxLocal=1, MaxScopes=1, MaxCycles=0), "terminal", {}),
+})
